@@ -368,6 +368,10 @@ impl Reporter {
         if unknown > 0 {
             return 1;
         }
+        if self.args.replay.is_none() && g.samples.is_empty() {
+            println!("BROKEN-RUN property={} no sample case was recorded", id);
+            return 2;
+        }
         if self.args.replay.is_none() && (g.evaluations == 0 || distinct_n < 2) {
             println!(
                 "BROKEN-RUN property={} the monitor observed nothing (evaluations={}, distinct={})",
